@@ -64,13 +64,13 @@ func v2CreateInput(spec *TableSpec) *v2ddb.CreateTableInput {
 	for _, ix := range spec.Indexes {
 		if ix.Local {
 			in.LocalSecondaryIndexes = append(in.LocalSecondaryIndexes, v2types.LocalSecondaryIndex{
-				IndexName: aws.String(ix.Name), KeySchema: v2KeySchema(ix.Hash, ix.Range),
+				IndexName: strp(ix.Name), KeySchema: v2KeySchema(ix.Hash, ix.Range),
 				Projection: v2Projection(ix),
 			})
 			continue
 		}
 		g := v2types.GlobalSecondaryIndex{
-			IndexName: aws.String(ix.Name), KeySchema: v2KeySchema(ix.Hash, ix.Range),
+			IndexName: strp(ix.Name), KeySchema: v2KeySchema(ix.Hash, ix.Range),
 			Projection: v2Projection(ix),
 		}
 		if spec.Throughput {
@@ -485,7 +485,7 @@ func (c *V2) Do(op Op) (out Outcome) {
 					ad.add(ch.Create.Hash, ch.Create.HashT)
 					ad.add(ch.Create.Range, ch.Create.RangeT)
 				}
-				u.Create = &v2types.CreateGlobalSecondaryIndexAction{IndexName: aws.String(ch.Create.Name),
+				u.Create = &v2types.CreateGlobalSecondaryIndexAction{IndexName: strp(ch.Create.Name),
 					KeySchema:  v2KeySchema(ch.Create.Hash, ch.Create.Range),
 					Projection: v2Projection(*ch.Create), ProvisionedThroughput: v2Throughput()}
 			}
